@@ -116,3 +116,37 @@ def magicSquare (n : Nat) (power : Nat) : Option GCqm :=
                         sense := .ge, rhs := (((n * n * n * n - n * n : Nat)) : Rat) / 2 } : GCons)] }
 
 end Gen
+
+namespace Gen
+open Pen
+
+/-! ## `quadratic_assignment(distance_matrix, flow_matrix)` (as repaired: patches/qap-asymmetric-distance.diff)
+
+`x_{i}_{j} = 1`: facility `i` at location `j`.  The code visits every ordered pair of different cells
+`((i,j),(k,l))` and *sets* the interaction to `F[i][k]·D[j][l] + F[k][i]·D[l][j]` — the same value on both visits of an
+unordered pair, so the final state is one interaction per unordered pair of cells. -/
+
+def qapCoef (D F : List (List Rat)) (i j k l : Nat) : Rat := matGet F i k * matGet D j l + matGet F k i * matGet D l j
+
+/-- the terms for the cells `(k, l)` lexicographically after `(i, j)` -/
+def qapRow (n : Nat) (D F : List (List Rat)) (i j : Nat) : List (PTerm Label) :=
+  (List.range n).flatMap fun k => ((List.range n).filter (fun l => i < k ∨ (i = k ∧ j < l))).map fun l =>
+    PTerm.quad (xIJ i j) (xIJ k l) (qapCoef D F i j k l)
+
+def isSquare (n : Nat) (M : List (List Rat)) : Bool := M.length = n && M.all (fun row => row.length = n)
+
+/-- `none` = `ValueError` (shapes differ / not square); matrices are lists of rows -/
+def quadraticAssignment (D F : List (List Rat)) : Option GCqm :=
+  let n := D.length
+  if !(isSquare n D && isSquare n F) then none else
+  some { vars := (List.range n).flatMap (fun i => (List.range n).map (fun j => xIJ i j)),
+         obj := (List.range n).flatMap (fun i => (List.range n).map (fun j => PTerm.lin (xIJ i j) 0))
+                ++ (List.range n).flatMap (fun i => (List.range n).flatMap (fun j => qapRow n D F i j)),
+         cons := (List.range n).map (fun i =>
+                   ({ label := s!"discrete_constraint_{i}",
+                      lhs := (List.range n).map (fun j => PTerm.lin (xIJ i j) 1), sense := .eq, rhs := 1 } : GCons))
+                 ++ (List.range n).map (fun j =>
+                   ({ label := s!"facility_constraint_{j}",
+                      lhs := (List.range n).map (fun i => PTerm.lin (xIJ i j) 1) ++ [PTerm.const (-1)], sense := .eq, rhs := 0 } : GCons)) }
+
+end Gen
